@@ -300,7 +300,20 @@ func seqD(v ssa.Value, depth int, inprog map[ssa.Value]bool) ([]SeqElem, bool) {
 			return append(append([]SeqElem(nil), base...), SeqElem{Kind: "star", Sub: star}), true
 		}
 		return base, true
-	case *ssa.Parameter, *ssa.Extract, *ssa.UnOp, *ssa.FieldAddr, *ssa.Field, *ssa.Lookup, *ssa.Index:
+	case *ssa.Parameter:
+		// a slice handed to a helper that is examined on behalf of its caller: the caller's construction
+		if b, ok := paramBindV[x]; ok && b != nil && !inprog[x] {
+			switch b.(type) {
+			case *ssa.MakeSlice, *ssa.Call, *ssa.Slice, *ssa.Phi:
+				inprog[x] = true
+				defer delete(inprog, x)
+				if s, ok := seqD(b, depth+1, inprog); ok {
+					return s, true
+				}
+			}
+		}
+		return []SeqElem{{Kind: "spread", D: desc(v), V: v}}, true
+	case *ssa.Extract, *ssa.UnOp, *ssa.FieldAddr, *ssa.Field, *ssa.Lookup, *ssa.Index:
 		return []SeqElem{{Kind: "spread", D: desc(v), V: v}}, true
 	}
 	return nil, false
